@@ -104,6 +104,10 @@ pub fn msg_class(e: &Error) -> String {
 }
 
 pub fn show_err(e: &Error) -> String {
+    if std::env::var_os("HARNESS_RAW_MSG").is_some() {
+        // C13 compares the message *texts* of the two builds, not their classes
+        return format!("err {} {:?}", kind_name(e.kind()), e.to_string());
+    }
     format!("err {} {}", kind_name(e.kind()), msg_class(e))
 }
 
